@@ -6,8 +6,11 @@ import vlib
 
 
 def signature(msg, case_lines):
-    # what=autonomous-state-lag / reset-edge-sampling are the two behaviours found on the unchanged tree (see report);
-    # everything else is keyed by what failed and in which design class
+    # what=autonomous-state-lag / reset-edge-sampling are the two behaviours found on the unchanged tree (see report). The driver prints them only
+    # when the concrete prediction holds: autonomous-state-lag iff the hinted design equals, in every cycle, the twin whose counter is delayed by the
+    # lag DERIVED FROM THE RECIPE (hints behind the combining step) and the measured register count equals that lag; reset-edge-sampling only in
+    # class resetedge and iff the hinted design equals, in every cycle, the explicit-register design predicted from the recipe (registers at the
+    # pipestages, reset value = power-on value of their input if any bit is defined). Everything else is keyed by what failed and in which class.
     m = re.search(r"what=(\S+)", msg)
     what = m.group(1) if m else "?"
     if what in ("autonomous-state-lag", "reset-edge-sampling"):
@@ -24,7 +27,9 @@ def extra(t):
             "autonomous_cases_confirmed_against_lag_twin": t.get("autonomous_checked_against_lag_twin", 0),
             "backward_retimed_registers_by_reset_and_enable": t.get("hist", {}).get("backward_retimed_registers", {}),
             "cases_enable_low_directly_after_reset": t.get("cases_enable_low_after_reset", 0),
-            "grouped_enable_logic_in_retimed_area": t.get("hist", {}).get("grouped_enable_logic_in_retimed_area", {})}
+            "grouped_enable_logic_in_retimed_area": t.get("hist", {}).get("grouped_enable_logic_in_retimed_area", {}),
+            "reset_edge_designs_checked_against_prediction": t.get("reset_edge_designs_checked_against_prediction", 0),
+            "counter_lags_checked_against_recipe_derivation": t.get("counter_lags_checked_against_derivation", 0)}
 
 
 vlib.standard_check({
@@ -43,7 +48,9 @@ vlib.standard_check({
     "nontrivial": lambda t: t.get("cases", 0) - t.get("hist", {}).get("stages", {}).get("N0", 0),
     "extra_cov": extra,
     "rule": "generated datapaths (1-4 data inputs of 1-8 bits, 0-2 stall inputs, 1-2 balance groups with all/some/no reset values, clocks with synchronous reset "
-            "or power-on initialisation only) of eight classes: anchored registers and asynchronous-read memory write ports inside the forward-retimed area whose "
+            "or power-on initialisation only) of nine classes: a combinational function followed by 1-3 pipestages in series with mixed / missing reset values under a synchronous reset (class "
+            "resetedge, compared in every cycle with an explicit-register design predicted from the recipe); in all other classes no register samples on the reset "
+            "edge (stall inputs low in cycle 0 or clock without reset); anchored registers and asynchronous-read memory write ports inside the forward-retimed area whose "
             "enable is a grouped input, logic over grouped inputs (compare with constant, AND, NOT, OR, across two groups) with and without an enclosing stall "
             "scope, reset values chosen so that the state is a fixed point under the reset inputs, 1-3 pipestages behind; stateless logic, two groups, feed-forward registers, autonomous counters, movable registers "
             "(with stricter enables -> enable splitting / holding circuits, entry chains without a group), negative registers with compensating register, "
